@@ -17,6 +17,11 @@ ROWS = BR + [r for r in EXTRA if r in REG] + [r for r in PC_LOADS if r not in EX
 def to_pc(row, w, entropy):
     import random
     rng = random.Random(entropy ^ 0x9C)
+    if row.name == 'TBB_TBH_T1':
+        if rng.random() < 0.4:
+            for p_ in row.fields['n']:
+                w |= 1 << p_                    # the branch table follows the instruction: Rn = PC
+        return w
     if row.name not in PC_LOADS or rng.random() >= 0.4:
         return w
     if 't' in row.fields and len(row.fields['t']) == 4:
@@ -66,6 +71,10 @@ def case_kw(rng, row):
         kw['code_base'] = rng.choice((0, 0xFFFFFF00, 0xFFFF0000, 0x7FFFFF80, 0x80000000))     # instruction addresses next to 0 / 2^31 / 2^32: targets and link values wrap
     if row.n == 16 or row.name.endswith(('_T1', '_T2', '_T3', '_T4')):
         kw['pc_off'] = rng.choice((0, 2))
+    if row.name == 'TBB_TBH_T1':
+        kw['e'] = 1 if rng.random() < 0.4 else 0          # the table is data: halfword entries are byte-reversed with CPSR.E = 1
+        if rng.random() < 0.7:
+            kw['it'] = 0
     return kw
 
 
